@@ -54,6 +54,19 @@ class TagLib(LibraryMiddleware):
         return library
 
 
+class AddBlock(LibraryMiddleware):
+    """library probe that generates content: appends a comment carrying its tag (visible even on an empty library)"""
+
+    def __init__(self, tag):
+        super().__init__(allow_inplace_modification=False)
+        self.tag = tag
+
+    def transform(self, library):
+        library = super().transform(library)
+        library.add(M.ExplicitComment(self.tag + str(len(library.blocks))))
+        return library
+
+
 class Splice(BlockMiddleware):
     """probe returning a configurable kind of result for entries"""
 
@@ -124,7 +137,7 @@ def wrap(stack, how):
 def mk_stack(spec):
     if spec is None:
         return None
-    return [TagFields(t) if t[0] == "b" else TagLib(t) for t in spec]
+    return [TagFields(t) if t[0] == "b" else (AddBlock(t) if t[0] == "c" else TagLib(t)) for t in spec]
 
 
 def drv_parse(text, stack_spec, append_spec, how):
@@ -243,11 +256,14 @@ def sym_doc(eng):
     return mk(tuple("@a{") + chars(k) + tuple(", t = {v}, u = w}\n") + chars(tail)), (k, tail)
 
 
-def task_stack(which, stack_spec, extra_spec, how):
+def task_stack(which, stack_spec, extra_spec, how, doc="entry"):
     eng = Engine()
-    eng.own_class(TagFields, TagLib, Splice)
+    eng.own_class(TagFields, TagLib, Splice, AddBlock)
     rec = Recorder(eng)
-    text, syms = sym_doc(eng)
+    if doc == "entry":
+        text, syms = sym_doc(eng)
+    else:
+        text = eng.sym_str("t", 2, " \n" + SIGMA_S)     # may be empty of blocks / whitespace only
     E = eng.I.models.eq_simple
     drv = drv_parse if which == "parse" else drv_write
     worlds = eng.run(drv, [text, stack_spec, extra_spec, how])
@@ -286,7 +302,7 @@ def task_stack(which, stack_spec, extra_spec, how):
 
 def task_repeat():
     eng = Engine()
-    eng.own_class(TagFields, TagLib, Splice)
+    eng.own_class(TagFields, TagLib, Splice, AddBlock)
     rec = Recorder(eng)
     text, syms = sym_doc(eng)
     E = eng.I.models.eq_simple
@@ -316,7 +332,7 @@ def task_repeat():
 
 def task_splice(kind):
     eng = Engine()
-    eng.own_class(TagFields, TagLib, Splice)
+    eng.own_class(TagFields, TagLib, Splice, AddBlock)
     rec = Recorder(eng)
     text, syms = sym_doc(eng)
     worlds = eng.run(drv_splice, [text, kind])
@@ -493,7 +509,7 @@ def task_filelog(enc, target_kind):
 
 def main():
     chk = Check("C20", __doc__)
-    chk.bounds = {"document": "'@a{K, t = {v}, u = w}' + newline + 2 symbolic characters over the splitter alphabet; K symbolic over {a,b}",
+    chk.bounds = {"document": "'@a{K, t = {v}, u = w}' + newline + 2 symbolic characters over the splitter alphabet; K symbolic over {a,b}; and documents that are just 2 symbolic characters (possibly blank) with content-generating probes",
                   "stacks": "parse_stack / unparse_stack in {None, [], 1, 2, 3 probes}, append / prepend in {None, [], 1, 2 probes}, block and library probes mixed, passed as list / tuple / one-shot iterator",
                   "splice results": sorted(SPLICE), "file layer": "open() stub; encodings utf-8/latin-1/gbk/utf-16 passed through; path and file-object targets"}
     chk.assumptions = ["real codecs / the OS are outside the claim: open() is a stub that records its arguments; only the pass-through of path/encoding and the equality with parse_string(content) / write_string(...) are claimed",
@@ -511,6 +527,9 @@ def main():
                 if how == "tuple" and not deep and not (st is None):
                     continue
                 chk.add_task(f"{which}-{st}-{ex}-{how}".replace(" ", ""), task_stack, which=which, stack_spec=st, extra_spec=ex, how=how)
+    for which in ("parse", "write"):
+        for st, ex in ((None, ["c7"]), (["c1", "c2"], None), (["c1"], ["c2"]), ([], []), (None, None), (["c2", "c1"], None), (None, ["c1", "c2"])):
+            chk.add_task(f"{which}-blank-{st}-{ex}".replace(" ", ""), task_stack, which=which, stack_spec=st, extra_spec=ex, how="list", doc="blank")
     for kind in SPLICE:
         chk.add_task(f"splice-{kind}", task_splice, kind=kind)
     chk.add_task("repeated-calls", task_repeat)
